@@ -83,6 +83,7 @@ func ConflatedContext(contexts ...context.Context) (ctx context.Context, cancel 
 	go func() {
 		verifAt("ctx.conflated.wgwait", nil, 0)
 		wg.Wait()
+		verifAt("context.after.woke1", nil, 0)
 		cancel() // combined cancel
 	}()
 
